@@ -629,3 +629,55 @@ func (o *Oracle) strandedCheck() {
 		_ = n
 	}
 }
+
+// ------------------------------------------------------------------ C04 pairwise log matching
+
+// checkLogMatching: whenever two durable logs hold an entry with the same index and term,
+// they are identical at every lower index both still retain.
+func (o *Oracle) checkLogMatching() {
+	w := o.w
+	if o.tainted != "" {
+		return
+	}
+	for ai := 0; ai < len(w.nodes); ai++ {
+		for bi := ai + 1; bi < len(w.nodes); bi++ {
+			a, b := w.nodes[ai].disk, w.nodes[bi].disk
+			if a.last == 0 || b.last == 0 {
+				continue
+			}
+			hi := a.last
+			if b.last < hi {
+				hi = b.last
+			}
+			lo := a.first
+			if b.first > lo {
+				lo = b.first
+			}
+			anchor := uint64(0)
+			for i := hi; i >= lo && i > 0; i-- {
+				la, oka := a.logs[i]
+				lb, okb := b.logs[i]
+				if oka && okb && la.Term == lb.Term {
+					anchor = i
+					break
+				}
+			}
+			if anchor == 0 {
+				continue
+			}
+			for i := anchor; i >= lo && i > 0; i-- {
+				la, oka := a.logs[i]
+				lb, okb := b.logs[i]
+				if !oka || !okb {
+					continue
+				}
+				if !entOf(la).same(entOf(lb)) {
+					v := w.violate("C04", "C04/logs-diverge-below-common-entry", "s%d and s%d both hold (%d, term %d) but differ at index %d: (term %d, %v, %q) vs (term %d, %v, %q)",
+						ai, bi, anchor, a.logs[anchor].Term, i, la.Term, la.Type, short(string(la.Data)), lb.Term, lb.Type, short(string(lb.Data)))
+					v.Facts["below_a_snapshot"] = fmt.Sprint(i <= a.snapIndex() || i <= b.snapIndex())
+					return
+				}
+			}
+		}
+	}
+}
